@@ -184,10 +184,13 @@ macro_rules! impl_conversion_to_float {
                     } else if top_bit < $lb {
                         Err(ConversionError::LossOfPrecision)
                     } else {
-                        match <$t>::encode(
-                            value.0.numerator.try_into().unwrap(),
-                            -(den_bits as i16),
-                        ) {
+                        // only the odd part of the numerator has to fit the mantissa type
+                        let num_zeros = value.0.numerator.trailing_zeros().unwrap();
+                        let man = match (value.0.numerator >> num_zeros).try_into() {
+                            Ok(man) => man,
+                            Err(_) => return Err(ConversionError::LossOfPrecision),
+                        };
+                        match <$t>::encode(man, num_zeros as i16 - den_bits as i16) {
                             Exact(v) => Ok(v),
                             Inexact(v, _) => {
                                 if v.is_infinite() {
